@@ -163,6 +163,9 @@ class Type3Tag(nfc.tag.Tag):
                 self._read_attribute_error = error
                 return None
 
+            if data is None:  # read with mac verification failed
+                return None
+
             if sum(data[0:14]) != unpack(">H", data[14:16])[0]:
                 log.debug("ndef attribute data checksum error")
                 return None
@@ -223,9 +226,12 @@ class Type3Tag(nfc.tag.Tag):
                 last_block = min(i + nbr, last_block_number)
                 block_list = range(i, last_block)
                 try:
-                    data += self.tag.read_from_ndef_service(*block_list)
+                    part = self.tag.read_from_ndef_service(*block_list)
                 except Type3TagCommandError:
                     return None
+                if part is None:  # read with mac verification failed
+                    return None
+                data += part
 
             data = data[0:attributes['ln']]
             log.debug("got {0} byte ndef data {1}{2}".format(
